@@ -449,7 +449,7 @@ class TransactionOutput(CBORSerializable):
         return self.amount.coin
 
     def to_primitive(self) -> Primitive:
-        if self.datum or self.script or self.post_alonzo:
+        if self.datum is not None or self.script is not None or self.post_alonzo:
             datum = (
                 _DatumOption(self.datum_hash or self.datum)
                 if self.datum is not None or self.datum_hash is not None
